@@ -6,8 +6,9 @@
 (* strings, so PEC, framing, correlation and the EID life cycle are        *)
 (* exercised together.                                                     *)
 (*                                                                         *)
-(*   BusOwner  runs a script: Set EID -> Get EID -> Get UUID -> Get        *)
-(*             Message Types -> enumerate the vendor sets by following the *)
+(*   BusOwner  runs a script (constant Script, e.g. MC_Link!ScriptAll):    *)
+(*             Set EID -> Get EID -> Get UUID -> Get Message Types ->      *)
+(*             enumerate the vendor sets by following the                  *)
 (*             selectors; a fresh instance id per request, bounded retry   *)
 (*             on time-out; it accepts a response only if its own decoder  *)
 (*             accepts it and source, command and instance id match the    *)
